@@ -192,6 +192,21 @@ def _traverse_unit(ctx: Ctx) -> FuncUnit:
         if n_is >= 3 and any(isinstance(n, ast.While) for n in ast.walk(m.node)):
             best = m
     if best is None:
+        # the body of the worklist loop may be a method of its own: the loop method with that body spliced back in
+        from ..norm import inline_view
+
+        def n_is_of(m_) -> int:
+            return sum(1 for n in ast.walk(m_.node) if isinstance(n, ast.If) and _isinstance_names(n.test))
+        for m in b.methods.values():
+            for w in [n for n in ast.walk(m.node) if isinstance(n, ast.While)]:
+                for st in ast.walk(w):
+                    if isinstance(st, ast.Expr) and isinstance(st.value, ast.Call) and isinstance(st.value.func, ast.Attribute) \
+                            and isinstance(st.value.func.value, ast.Name) and st.value.func.value.id == 'self' \
+                            and st.value.func.attr in b.methods and n_is_of(b.methods[st.value.func.attr]) >= 3:
+                        view, spliced = inline_view(ctx.p, m, {id(st)})
+                        if spliced:
+                            return view
+    if best is None:
         raise AnalysisError('traversal function (worklist over marks) not found')
     return best
 
